@@ -68,9 +68,9 @@ def run(ctx):
     if ctx.replay:
         return replay(ctx, bins)
     mn = ctx.n(15, 300)
-    ctx.run_events(bins[("c06a", "asan")], ctx.n(14400, 480000), timeout=3000, require=req(A_APIS, mn))
-    ctx.run_events(bins[("c06b", "asan")], ctx.n(10800, 360000), timeout=3000, require=req(B_APIS, mn))
-    ctx.run_events(bins[("c06c", "asan")], ctx.n(7200, 240000), timeout=3000, require=req(C_APIS, mn))
+    ctx.run_events(bins[("c06a", "asan")], ctx.n(9600, 480000), timeout=3000, require=req(A_APIS, mn))
+    ctx.run_events(bins[("c06b", "asan")], ctx.n(7200, 360000), timeout=3000, require=req(B_APIS, mn))
+    ctx.run_events(bins[("c06c", "asan")], ctx.n(4800, 240000), timeout=3000, require=req(C_APIS, mn))
     if ctx.thorough:
         ctx.run_events(bins[("c06a", "O2")], 480000, timeout=3000, require=[])
         ctx.run_events(bins[("c06b", "O2")], 360000, timeout=3000, require=[])
